@@ -387,45 +387,54 @@ Definition entry_inv (quote : text -> text) (tbl : table) (r : registry) (e : en
      listing_prod (e_prod e) = true -> visible r (e_obj e) = true) /\
   (wf r -> table_ok tbl = true ->
      e_ctx e = e_page e \/ own_page r (e_obj e) = true \/ raw_prod (e_prod e) = true) /\
-  (markers_ok tbl = true -> marked_prod (e_prod e) = true -> priv_of r (e_obj e) = PRIVATE -> e_private e = true).
+  (markers_ok tbl = true -> marked_prod (e_prod e) = true -> priv_of r (e_obj e) = PRIVATE -> e_private e = true) /\
+  (wf r -> table_ok tbl = true -> contents_prod (e_prod e) = true -> reachable r (e_obj e)).
 
 Ltac leaf := unfold entry_inv; cbn [e_page e_prod e_obj e_ctx e_private mk].
 Ltac nolisting := let H := fresh in intros _ _ _ H; vm_compute in H; discriminate H.
 Ltac nomarked := let H := fresh in intros _ H; vm_compute in H; discriminate H.
+Ltac nocontents := let H := fresh in intros _ _ H; vm_compute in H; discriminate H.
 
 Section Entries.
 Variable quote : text -> text.
 Variable tbl : table.
 Variable r : registry.
 
-Lemma inv_plain : forall pg prod o, listing_prod prod = false -> marked_prod prod = false ->
+Lemma inv_plain : forall pg prod o, listing_prod prod = false -> marked_prod prod = false -> contents_prod prod = false ->
   entry_inv quote tbl r (mk pg prod pg false o).
 Proof.
-  intros pg prod o Hl Hm. leaf. split; [|split].
+  intros pg prod o Hl Hm Hc. leaf. split; [|split; [|split]].
   - intros _ _ _ H. congruence.
   - intros _ _. now left.
   - intros _ H. congruence.
+  - intros _ _ H. congruence.
 Qed.
 
-Lemma inv_vis : forall pg prod o, marked_prod prod = false -> root_prod prod = false ->
+Lemma inv_vis : forall pg prod o, marked_prod prod = false -> root_prod prod = false -> contents_prod prod = false ->
   (wf r -> table_ok tbl = true -> visible r o = true) -> entry_inv quote tbl r (mk pg prod pg false o).
 Proof.
-  intros pg prod o Hm Hr Hv. leaf. split; [|split].
+  intros pg prod o Hm Hr Hc Hv. leaf. split; [|split; [|split]].
   - intros Hwf Ht _ _. now apply Hv.
   - intros _ _. now left.
   - intros _ H. congruence.
+  - intros _ _ H. congruence.
 Qed.
 
 Lemma inv_row : forall pg prod c, root_prod prod = false ->
   (table_ok tbl = true -> visible r c = true) ->
+  (wf r -> table_ok tbl = true -> contents_prod prod = true -> reachable r c) ->
   entry_inv quote tbl r (mk pg prod pg (t_row_uses_css tbl && css_private tbl r c) c).
 Proof.
-  intros pg prod c Hr Hv. leaf. split; [|split].
+  intros pg prod c Hr Hv Hreach. leaf. split; [|split; [|split]].
   - intros _ Ht _ _. now apply Hv.
   - intros _ _. now left.
   - intros Hm _ Hp. destruct (markers_ok_facts tbl Hm) as [H1 [_ [_ [_ [H5 _]]]]].
     destruct (private_is_private r c Hp) as [_ H]. unfold css_private. now rewrite H1, H5, H.
+  - exact Hreach.
 Qed.
+
+Lemma reachable_child : forall p c, reachable r p -> In c (contents_of r p) -> reachable r c.
+Proof. intros p c [root [Hr Hd]] Hc. exists root. split; [exact Hr|]. exact (desc_trans_child r root p c Hd Hc). Qed.
 
 Lemma obj_content_inv : forall fuel depth level pg s e,
   In e (obj_content fuel tbl r depth level pg pg s) -> entry_inv quote tbl r e.
@@ -434,7 +443,7 @@ Proof.
   cbn [obj_content] in Hin. apply in_app_or in Hin.
   assert (Hitem : forall c, (table_ok tbl = true -> visible r c = true) ->
             entry_inv quote tbl r (mk pg P_sidebar_item pg (t_sidebar_private tbl && is_private r c) c)).
-  { intros c Hv. leaf. split; [|split].
+  { intros c Hv. leaf. split; [|split; [|split]]; [| | |nocontents].
     - intros _ Ht _ _. now apply Hv.
     - intros _ _. now left.
     - intros Hm _ Hp. destruct (markers_ok_facts tbl Hm) as [_ [H2 _]].
@@ -469,10 +478,13 @@ Proof.
   assert (Hpw : wf r -> table_ok tbl = true -> own_page r p = true /\ visible r p = true).
   { intros Hwf Ht. destruct (table_ok_facts tbl Ht) as [_ [_ [_ [_ [_ [_ [_ [_ [_ [_ [_ [_ [_ [_ [_ [_ [_ [H18 _]]]]]]]]]]]]]]]]]].
     apply (written_iff tbl r Hwf H18) in Hp. tauto. }
+  assert (Hreachp : wf r -> table_ok tbl = true -> reachable r p).
+  { intros Hwf Ht. destruct (table_ok_facts tbl Ht) as [_ [_ [_ [_ [_ [_ [_ [_ [_ [_ [_ [_ [_ [_ [_ [_ [_ [H18 _]]]]]]]]]]]]]]]]]].
+    apply (written_iff tbl r Hwf H18) in Hp. tauto. }
   repeat (apply in_app_or in Hin; destruct Hin as [Hin|Hin]).
   - (* heading *) apply in_map_iff in Hin. destruct Hin as [a [E _]]. subst e. now apply inv_plain.
   - (* sidebar *) destruct ns; [contradiction|]. apply in_app_or in Hin. destruct Hin as [Hin|Hin].
-    + apply in_map_iff in Hin. destruct Hin as [s [E Hs]]. subst e. leaf. split; [|split]; [nolisting| |nomarked].
+    + apply in_map_iff in Hin. destruct Hin as [s [E Hs]]. subst e. leaf. split; [|split; [|split]]; [nolisting| |nomarked|nocontents].
       intros Hwf Ht. right. left. destruct Hs as [E|Hs]; [subst s; exact (proj1 (Hpw Hwf Ht))|].
       destruct (is_module_kind (kind_of r p)).
       * destruct (parent_of r p) as [q|] eqn:Hq; [|contradiction]. destruct Hs as [E|[]]. subst s.
@@ -480,49 +492,57 @@ Proof.
       * destruct (module_of r p) as [q|] eqn:Hq; [|contradiction]. destruct Hs as [E|[]]. subst s.
         exact (wf_module_own r Hwf p q Hq).
     + apply in_flat_map in Hin. destruct Hin as [s [_ Hin]]. exact (obj_content_inv _ _ _ _ _ _ Hin).
-  - (* main table *) apply in_map_iff in Hin. destruct Hin as [c [E Hc]]. subst e. apply inv_row; [reflexivity|]. eauto.
-  - (* package init table *) apply in_map_iff in Hin. destruct Hin as [c [E Hc]]. subst e. apply inv_row; [reflexivity|]. eauto.
+  - (* main table *) apply in_map_iff in Hin. destruct Hin as [c [E Hc]]. subst e. apply inv_row; [reflexivity|eauto|].
+    intros Hwf Ht _. apply (reachable_child p c); [exact (Hreachp Hwf Ht)|].
+    unfold rows_of in Hc. apply filter_In in Hc. destruct Hc as [Hc _]. unfold children_of in Hc.
+    destruct (kind_of r p); apply filter_In in Hc; exact (proj1 Hc).
+  - (* package init table *) apply in_map_iff in Hin. destruct Hin as [c [E Hc]]. subst e. apply inv_row; [reflexivity|eauto|].
+    intros Hwf Ht _. apply (reachable_child p c); [exact (Hreachp Hwf Ht)|].
+    unfold rows_of in Hc. apply filter_In in Hc. destruct Hc as [Hc _]. unfold pkg_init_of in Hc.
+    destruct (kind_of r p); try contradiction. apply filter_In in Hc. exact (proj1 Hc).
   - (* base tables *) apply in_flat_map in Hin. destruct Hin as [x [_ Hin]].
-    apply in_map_iff in Hin. destruct Hin as [c [E Hc]]. subst e. apply inv_row; [reflexivity|]. eauto.
+    apply in_map_iff in Hin. destruct Hin as [c [E Hc]]. subst e. apply inv_row; [reflexivity|eauto|nocontents].
   - (* base names *) apply in_flat_map in Hin. destruct Hin as [x [_ Hin]].
     apply in_map_iff in Hin. destruct Hin as [c [E Hc]]. subst e. now apply inv_plain.
-  - (* member details *) apply in_map_iff in Hin. destruct Hin as [c [E Hc]]. subst e. leaf. split; [|split].
+  - (* member details *) apply in_map_iff in Hin. destruct Hin as [c [E Hc]]. subst e. leaf. split; [|split; [|split]]; [| | |nocontents].
     + intros _ Ht _ _. exact (methods_visible p c Ht Hc).
     + intros _ _. right. right. reflexivity.
     + intros Hm _ Hpr. destruct (markers_ok_facts tbl Hm) as [H1 [_ [_ [_ [_ H6]]]]].
       destruct (private_is_private r c Hpr) as [_ H]. unfold css_private. now rewrite H1, H6, H.
   - (* class extras *) destruct (is_class_kind (kind_of r p)); [|contradiction].
     repeat (apply in_app_or in Hin; destruct Hin as [Hin|Hin]).
-    + apply in_map_iff in Hin. destruct Hin as [c [E Hc]]. subst e. apply inv_vis; [reflexivity|reflexivity|].
+    + apply in_map_iff in Hin. destruct Hin as [c [E Hc]]. subst e. apply inv_vis; [reflexivity|reflexivity|reflexivity|].
       intros _ Ht. destruct (table_ok_facts tbl Ht) as [_ [_ [_ [_ [_ [_ [_ [_ [_ [_ [_ [_ [_ [_ [_ [_ [_ [_ [H19 _]]]]]]]]]]]]]]]]]]].
       apply filter_In in Hc. exact (keep_visible _ r c H19 (proj2 Hc)).
     + apply in_map_iff in Hin. destruct Hin as [c [E Hc]]. subst e. now apply inv_plain.
     + apply in_flat_map in Hin. destruct Hin as [m [_ Hin]]. apply in_map_iff in Hin. destruct Hin as [c [E Hc]]. subst e.
       now apply inv_plain.
     + apply in_flat_map in Hin. destruct Hin as [m [_ Hin]]. apply in_map_iff in Hin. destruct Hin as [c [E Hc]]. subst e.
-      apply inv_vis; [reflexivity|reflexivity|].
+      apply inv_vis; [reflexivity|reflexivity|reflexivity|].
       intros _ Ht. destruct (table_ok_facts tbl Ht) as [_ [_ [_ [_ [_ [_ [_ [_ [_ [_ [_ [_ [_ [_ [_ [_ [_ [_ [H19 _]]]]]]]]]]]]]]]]]]].
       apply filter_In in Hc. exact (keep_visible _ r c H19 (proj2 Hc)).
-    + destruct Hin as [E|[]]. subst e. leaf. split; [|split]; [| |nomarked].
+    + destruct Hin as [E|[]]. subst e. leaf. split; [|split; [|split]]; [| |nomarked|nocontents].
       * intros Hwf Ht _ _. exact (proj2 (Hpw Hwf Ht)).
       * intros _ _. now left.
 Qed.
 
 Lemma module_summary_inv : forall fuel m e,
-  (wf r -> table_ok tbl = true -> roots_guard tbl r -> visible r m = true) ->
+  (wf r -> table_ok tbl = true -> roots_guard tbl r -> visible r m = true) -> reachable r m ->
   In e (module_summary fuel tbl r m) -> entry_inv quote tbl r e.
 Proof.
-  induction fuel as [|f IH]; intros m e Hm Hin; [contradiction|].
+  induction fuel as [|f IH]; intros m e Hm Hreach Hin; [contradiction|].
   cbn [module_summary] in Hin. destruct Hin as [E|Hin].
-  - subst e. leaf. split; [|split].
+  - subst e. leaf. split; [|split; [|split]].
     + intros Hwf Ht Hg _. apply Hm; auto.
     + intros _ _. now left.
     + intros Hmk _ Hp. destruct (markers_ok_facts tbl Hmk) as [_ [_ [H3 _]]].
       destruct (private_is_private r m Hp) as [H _]. now rewrite H3, H.
+    + intros _ _ _. exact Hreach.
   - destruct (kind_of r m); try contradiction.
-    apply in_flat_map in Hin. destruct Hin as [c [Hc Hin]]. apply (IH c e); [|exact Hin].
+    apply in_flat_map in Hin. destruct Hin as [c [Hc Hin]]. apply filter_In in Hc. destruct Hc as [Hcm Hk].
+    apply (IH c e); [|exact (reachable_child m c Hreach Hcm)|exact Hin].
     intros _ Ht _. destruct (table_ok_facts tbl Ht) as [_ [_ [_ [_ [_ [_ [_ [_ [_ [H10 _]]]]]]]]]].
-    apply filter_In in Hc. destruct Hc as [_ Hk]. apply andb_prop in Hk. exact (keep_visible _ r c H10 (proj2 Hk)).
+    apply andb_prop in Hk. exact (keep_visible _ r c H10 (proj2 Hk)).
 Qed.
 
 Lemma subclasses_from_visible : forall fuel c x, table_ok tbl = true -> visible r c = true ->
@@ -547,54 +567,70 @@ Qed.
 Lemma inv_raw : forall pg prod priv o, root_prod prod = false -> raw_prod prod = true ->
   (table_ok tbl = true -> visible r o = true) ->
   (markers_ok tbl = true -> marked_prod prod = true -> priv_of r o = PRIVATE -> priv = true) ->
+  (contents_prod prod = true -> reachable r o) ->
   entry_inv quote tbl r (mk pg prod [] priv o).
 Proof.
-  intros pg prod priv o Hr Hraw Hv Hm. leaf. split; [|split].
+  intros pg prod priv o Hr Hraw Hv Hm Hc. leaf. split; [|split; [|split]].
   - intros _ Ht _ _. now apply Hv.
   - intros _ _. right. right. exact Hraw.
   - exact Hm.
+  - intros _ _. exact Hc.
+Qed.
+
+Lemma inventory_desc : forall fuel i x, In x (inventory_f fuel tbl r i) -> desc r i x.
+Proof.
+  induction fuel as [|f IH]; intros i x Hin; [contradiction|].
+  cbn [inventory_f] in Hin. destruct (keep (t_inventory tbl) r i); [|contradiction].
+  destruct Hin as [E|Hin]; [subst x; apply desc_refl|].
+  apply in_flat_map in Hin. destruct Hin as [c [Hc Hin]]. apply desc_step with c; [exact Hc|exact (IH c x Hin)].
 Qed.
 
 Lemma summary_entries_inv : forall e, In e (summary_entries tbl r) -> entry_inv quote tbl r e.
 Proof.
   intros e Hin. unfold summary_entries in Hin.
   repeat (apply in_app_or in Hin; destruct Hin as [Hin|Hin]).
-  - (* moduleIndex *) apply in_flat_map in Hin. destruct Hin as [m [Hm Hin]]. apply (module_summary_inv (fuel_of r) m e); [|exact Hin].
-    intros _ _ Hg. apply filter_In in Hm. destruct Hm as [Hroot Hk]. destruct Hg as [[H1 _]|Hall].
-    + exact (keep_visible _ r m H1 Hk).
-    + now apply Hall.
-  - (* classIndex *) apply in_map_iff in Hin. destruct Hin as [c [E Hc]]. subst e. apply inv_vis; [reflexivity|reflexivity|].
+  - (* moduleIndex *) apply in_flat_map in Hin. destruct Hin as [m [Hm Hin]]. apply filter_In in Hm. destruct Hm as [Hroot Hk].
+    apply (module_summary_inv (fuel_of r) m e); [| |exact Hin].
+    + intros _ _ Hg. destruct Hg as [[H1 _]|Hall].
+      * exact (keep_visible _ r m H1 Hk).
+      * now apply Hall.
+    + exists m. split; [exact Hroot|apply desc_refl].
+  - (* classIndex *) apply in_map_iff in Hin. destruct Hin as [c [E Hc]]. subst e. apply inv_vis; [reflexivity|reflexivity|reflexivity|].
     intros _ Ht. unfold class_index in Hc. apply in_flat_map in Hc. destruct Hc as [root [Hroot Hc]].
     apply (subclasses_from_visible (fuel_of r) root c Ht); [|exact Hc].
     destruct (table_ok_facts tbl Ht) as [_ [_ [_ [_ [_ [_ [_ [_ [_ [_ [H11 _]]]]]]]]]]].
     apply filter_In in Hroot. destruct Hroot as [_ Hk]. unfold is_root_class in Hk.
     apply andb_prop in Hk. destruct Hk as [Hk _]. apply andb_prop in Hk. exact (keep_visible _ r root H11 (proj2 Hk)).
-  - (* nameIndex *) apply in_map_iff in Hin. destruct Hin as [o [E Ho]]. subst e. leaf. split; [|split]; [| |nomarked].
+  - (* nameIndex *) apply in_map_iff in Hin. destruct Hin as [o [E Ho]]. subst e. leaf. split; [|split; [|split]]; [| |nomarked|nocontents].
     + intros _ Ht _ _. destruct (table_ok_facts tbl Ht) as [_ [_ [_ [_ [_ [_ [_ [_ [_ [_ [_ [_ [H13 _]]]]]]]]]]]]].
       apply filter_In in Ho. exact (keep_visible _ r o H13 (proj2 Ho)).
     + intros _ _. now left.
-  - (* undoccedSummary *) apply in_map_iff in Hin. destruct Hin as [o [E Ho]]. subst e. apply inv_vis; [reflexivity|reflexivity|].
+  - (* undoccedSummary *) apply in_map_iff in Hin. destruct Hin as [o [E Ho]]. subst e. apply inv_vis; [reflexivity|reflexivity|reflexivity|].
     intros _ Ht. destruct (table_ok_facts tbl Ht) as [_ [_ [_ [_ [_ [_ [_ [_ [_ [_ [_ [_ [_ [H14 _]]]]]]]]]]]]]].
     apply filter_In in Ho. destruct Ho as [_ Hk]. apply andb_prop in Hk. exact (keep_visible _ r o H14 (proj1 Hk)).
   - (* index.html roots *) destruct (multi_root r); [|contradiction].
-    apply in_map_iff in Hin. destruct Hin as [o [E Ho]]. subst e. leaf. split; [|split]; [| |nomarked].
-    + intros _ _ Hg _. apply filter_In in Ho. destruct Ho as [Hroot Hk]. destruct (Hg eq_refl) as [[_ H2]|Hall].
+    apply in_map_iff in Hin. destruct Hin as [o [E Ho]]. subst e. apply filter_In in Ho. destruct Ho as [Hroot Hk].
+    leaf. split; [|split; [|split]]; [| |nomarked|].
+    + intros _ _ Hg _. destruct (Hg eq_refl) as [[_ H2]|Hall].
       * exact (keep_visible _ r o H2 Hk).
       * now apply Hall.
     + intros _ _. now left.
-  - (* all-documents *) apply in_map_iff in Hin. destruct Hin as [o [E Ho]]. subst e. leaf. split; [|split].
+    + intros _ _ _. exists o. split; [exact Hroot|apply desc_refl].
+  - (* all-documents *) apply in_map_iff in Hin. destruct Hin as [o [E Ho]]. subst e. leaf. split; [|split; [|split]]; [| | |nocontents].
     + intros _ Ht _ _. destruct (table_ok_facts tbl Ht) as [_ [_ [_ [_ [_ [_ [_ [_ [_ [_ [_ [_ [_ [_ [H15 _]]]]]]]]]]]]]]].
       apply filter_In in Ho. exact (keep_visible _ r o H15 (proj2 Ho)).
     + intros _ _. right. right. reflexivity.
     + intros Hm _ Hp. destruct (markers_ok_facts tbl Hm) as [_ [_ [_ [H4 _]]]].
       destruct (private_is_private r o Hp) as [_ H]. now rewrite H4, H.
   - (* search corpus *) apply in_map_iff in Hin. destruct Hin as [o [E Ho]]. subst e.
-    apply inv_raw; [reflexivity|reflexivity| |nomarked].
+    apply inv_raw; [reflexivity|reflexivity| |nomarked|intros H; vm_compute in H; discriminate H].
     intros Ht. destruct (table_ok_facts tbl Ht) as [_ [_ [_ [_ [_ [_ [_ [_ [_ [_ [_ [_ [_ [_ [_ [H16 _]]]]]]]]]]]]]]]].
     apply filter_In in Ho. exact (keep_visible _ r o H16 (proj2 Ho)).
   - (* inventory *) apply in_map_iff in Hin. destruct Hin as [o [E Ho]]. subst e.
-    apply inv_raw; [reflexivity|reflexivity| |nomarked].
-    intros Ht. apply in_flat_map in Ho. destruct Ho as [root [_ Ho]]. exact (inventory_visible _ root o Ht Ho).
+    apply in_flat_map in Ho. destruct Ho as [root [Hroot Ho]].
+    apply inv_raw; [reflexivity|reflexivity| |nomarked|].
+    + intros Ht. exact (inventory_visible _ root o Ht Ho).
+    + intros _. exists root. split; [exact Hroot|exact (inventory_desc _ root o Ho)].
 Qed.
 
 Theorem site_entries_inv : forall depth ns e, In e (site_entries quote tbl r depth ns) -> entry_inv quote tbl r e.
@@ -625,7 +661,7 @@ Theorem private_marked : forall depth ns e, markers_ok tbl = true ->
   In e (site_entries quote tbl r depth ns) -> marked_prod (e_prod e) = true ->
   priv_of r (e_obj e) = PRIVATE -> e_private e = true.
 Proof.
-  intros depth ns e Hm Hin Hmk Hp. destruct (site_entries_inv quote tbl r depth ns e Hin) as [_ [_ H]]. auto.
+  intros depth ns e Hm Hin Hmk Hp. destruct (site_entries_inv quote tbl r depth ns e Hin) as [_ [_ [H _]]]. auto.
 Qed.
 
 Lemma raw_false : forall p, raw_prod p = false ->
@@ -665,21 +701,18 @@ Hypothesis quote_no_hash : forall t, ~ In c_hash (quote t).
 Lemma own_url_no_hash : forall o, valid r o -> own_page r o = true -> ~ In c_hash (url quote r o).
 Proof. intros o Hv Ho. destruct (own_url quote r o Hv Ho) as [_ E]. rewrite E. now apply page_url_no_hash. Qed.
 
-(* C11 (guarded): when nothing registered is left unreachable (no superseded duplicates, no collision leftovers), every
-   link built by taglink and every url field of all-documents.html / objects.inv leads to a written file and, with a
-   fragment, to an anchor of that file -- resolved against the page the link is rendered on. *)
-Theorem links_live_guarded : forall depth ns e h, wf r -> table_ok tbl = true ->
+(* the core: a link of the site whose target is reachable through contents is live on the page it is rendered on *)
+Lemma link_live_of_reachable : forall depth ns e h, wf r -> table_ok tbl = true ->
   t_taglink_drops_hidden tbl = true -> l_nospace (t_methods tbl) = false -> l_nospace (t_pkg_methods tbl) = false ->
-  all_reachable r ->
-  In e (site_entries quote tbl r depth ns) ->
+  In e (site_entries quote tbl r depth ns) -> reachable r (e_obj e) ->
   N.eqb (e_prod e) P_hierarchy = false -> N.eqb (e_prod e) P_childlist = false ->
   link_of quote tbl r e = Some h -> live_at quote tbl r (e_page e) h.
 Proof.
-  intros depth ns e h Hwf Ht Hf Hn1 Hn2 Hall Hin Hh Hc Hl.
+  intros depth ns e h Hwf Ht Hf Hn1 Hn2 Hin Hreach Hh Hc Hl.
   destruct (table_ok_facts tbl Ht) as [_ [_ [_ [_ [_ [_ [_ [_ [_ [_ [_ [_ [_ [_ [_ [_ [_ [H18 _]]]]]]]]]]]]]]]]]].
   pose proof (no_link_targets_hidden depth ns e h Hwf Ht Hf Hin Hl) as Hv.
   pose proof (visible_valid r _ Hv) as Hval.
-  pose proof (url_live quote quote_no_hash tbl r (e_obj e) (e_page e) Hwf H18 Hn1 Hn2 Hv (Hall _ Hval)) as Hlive.
+  pose proof (url_live quote quote_no_hash tbl r (e_obj e) (e_page e) Hwf H18 Hn1 Hn2 Hv Hreach) as Hlive.
   destruct (raw_prod (e_prod e)) eqn:Hraw.
   - (* url fields *)
     unfold link_of in Hl. rewrite Hh, Hc in Hl.
@@ -697,6 +730,35 @@ Proof.
       unfold taglink in Hl. destruct (negb (visible r (e_obj e)) && t_taglink_drops_hidden tbl); [discriminate|].
       inversion Hl; subst h. unfold shorten.
       rewrite (no_hash_no_prefix (e_ctx e) _ (own_url_no_hash _ Hval Eo)). rewrite andb_false_r. exact Hlive.
+Qed.
+
+(* C11: member tables (own and package __init__), moduleIndex.html, the root list of index.html and objects.inv pick
+   their targets from the contents of written pages / from the roots: their links are live, unconditionally *)
+Theorem links_live_contents : forall depth ns e h, wf r -> table_ok tbl = true ->
+  t_taglink_drops_hidden tbl = true -> l_nospace (t_methods tbl) = false -> l_nospace (t_pkg_methods tbl) = false ->
+  In e (site_entries quote tbl r depth ns) -> contents_prod (e_prod e) = true ->
+  link_of quote tbl r e = Some h -> live_at quote tbl r (e_page e) h.
+Proof.
+  intros depth ns e h Hwf Ht Hf Hn1 Hn2 Hin Hc Hl.
+  destruct (site_entries_inv quote tbl r depth ns e Hin) as [_ [_ [_ H4]]].
+  apply (link_live_of_reachable depth ns e h Hwf Ht Hf Hn1 Hn2 Hin (H4 Hwf Ht Hc)); [| |exact Hl];
+    unfold contents_prod in Hc; cbn [existsb] in Hc;
+    repeat (apply orb_prop in Hc; destruct Hc as [Hc|Hc]; [apply N.eqb_eq in Hc; rewrite Hc; reflexivity|]); discriminate.
+Qed.
+
+(* C11 (guarded): when nothing registered is left unreachable (no superseded duplicates, no collision leftovers), every
+   link built by taglink and every url field of all-documents.html / objects.inv leads to a written file and, with a
+   fragment, to an anchor of that file -- resolved against the page the link is rendered on. *)
+Theorem links_live_guarded : forall depth ns e h, wf r -> table_ok tbl = true ->
+  t_taglink_drops_hidden tbl = true -> l_nospace (t_methods tbl) = false -> l_nospace (t_pkg_methods tbl) = false ->
+  all_reachable r ->
+  In e (site_entries quote tbl r depth ns) ->
+  N.eqb (e_prod e) P_hierarchy = false -> N.eqb (e_prod e) P_childlist = false ->
+  link_of quote tbl r e = Some h -> live_at quote tbl r (e_page e) h.
+Proof.
+  intros depth ns e h Hwf Ht Hf Hn1 Hn2 Hall Hin Hh Hc Hl.
+  pose proof (no_link_targets_hidden depth ns e h Hwf Ht Hf Hin Hl) as Hv.
+  exact (link_live_of_reachable depth ns e h Hwf Ht Hf Hn1 Hn2 Hin (Hall _ (visible_valid r _ Hv)) Hh Hc Hl).
 Qed.
 
 End Consequences.
